@@ -6,6 +6,7 @@
    roll_m_source_paths, roll_m_values, roll_m_heap_ok.  No axioms. *)
 From Coq Require Import ZArith QArith List Bool Arith Lia Permutation.
 From Dyce Require Import Base.Sums Base.Order Base.Hist Model.Select Model.Pool Model.Roller Model.RollRecord.
+From Dyce Require Proofs.RollerP.   (* only for RollerP.teq (filterby_const_is_filter_m) *)
 Import ListNotations.
 Local Open Scope nat_scope.
 
@@ -496,7 +497,7 @@ Proof. intros [H|[H _]]; [apply complete_c1; exact H|exact H]. Qed.
 Fixpoint legal (S : Prop) (r : @rtree T) : Prop :=
   match r with
   | RVal _ | RH _ | RP _ => True
-  | RPool l | RSelect _ l | RFilter _ l =>
+  | RPool l | RSelect _ l | RFilter _ l | RFilterBy _ l =>
       (fix all (l : list (@rtree T)) : Prop := match l with [] => True | x :: t => legal S x /\ all t end) l
   | RRepeat _ r' | RUnOp _ r' => legal S r'
   | RBinOp _ a b => legal S a /\ legal S b
@@ -523,6 +524,7 @@ Hypothesis hBin : forall op a b, P a -> P b -> P (RBinOp op a b).
 Hypothesis hUn : forall op a, P a -> P (RUnOp op a).
 Hypothesis hSelect : forall w l, Forall P l -> P (RSelect w l).
 Hypothesis hFilter : forall f l, Forall P l -> P (RFilter f l).
+Hypothesis hFilterBy : forall f l, Forall P l -> P (RFilterBy f l).
 Hypothesis hSubst : forall e a d r, P r -> P (RSubst e a d r).
 Fixpoint rtree_ind' (r : @rtree T) : P r :=
   match r with
@@ -535,6 +537,7 @@ Fixpoint rtree_ind' (r : @rtree T) : P r :=
   | RUnOp op a => hUn op a (rtree_ind' a)
   | RSelect w l => hSelect w l ((fix F l : Forall P l := match l with [] => Forall_nil P | x :: t => Forall_cons x (rtree_ind' x) (F t) end) l)
   | RFilter f l => hFilter f l ((fix F l : Forall P l := match l with [] => Forall_nil P | x :: t => Forall_cons x (rtree_ind' x) (F t) end) l)
+  | RFilterBy f l => hFilterBy f l ((fix F l : Forall P l := match l with [] => Forall_nil P | x :: t => Forall_cons x (rtree_ind' x) (F t) end) l)
   | RSubst e a d r => hSubst e a d r (rtree_ind' r)
   end.
 End RtreeInd.
@@ -573,7 +576,7 @@ Definition src_paths (r : @rtree T) (p : path) (hp : heap) (rid : nat) : Prop :=
   let ps := map (fun s => rpath (get_r hp s)) (rsrc (get_r hp rid)) in
   match r with
   | RVal _ | RH _ | RP _ => ps = []
-  | RPool l | RSelect _ l | RFilter _ l => ps = map (fun k => p ++ [k]) (seq 0 (length l))
+  | RPool l | RSelect _ l | RFilter _ l | RFilterBy _ l => ps = map (fun k => p ++ [k]) (seq 0 (length l))
   | RRepeat n _ => ps = repeat (p ++ [0]) n
   | RBinOp _ _ _ => ps = [p ++ [0]; p ++ [1]]
   | RUnOp _ _ => ps = [p ++ [0]]
@@ -1276,6 +1279,114 @@ Proof.
     + intros HQ. destruct (J HQ) as [HQ1 _]. apply J'. exact HQ1.
 Qed.
 
+(* ---- FilterRoller with a provenance-aware predicate: the ids come tagged with the source position ---- *)
+Definition fbstep (pred : nat -> T -> bool) (acc : heap * list nat) (ki : nat * nat) : heap * list nat :=
+  let '(h0, os) := acc in
+  if pred (fst ki) (val_of zeroT h0 (snd ki)) then (h0, os ++ [snd ki])
+  else let '(h1, t) := euthanize h0 (snd ki) in (h1, os ++ [t]).
+
+Lemma filterby_fold_spec pred kids : forall (h : heap) os h' os', heap_ok h ->
+  Forall (fun ki => snd ki < length (houts h)) kids ->
+  fold_left (fbstep pred) kids (h, os) = (h', os') ->
+  heap_ok h' /\ extends h h' /\ length (hrolls h') = length (hrolls h) /\
+  exists news, os' = os ++ news /\ Forall (fun x => x < length (houts h')) news /\
+    Forall2 (fun x ki => (pred (fst ki) (val_of zeroT h (snd ki)) = true /\ x = snd ki) \/
+                         (pred (fst ki) (val_of zeroT h (snd ki)) = false /\ is_tomb h h' x (snd ki))) news kids.
+Proof.
+  induction kids as [|[k i] rest IH]; intros h os h' os' Hok Hr E; cbn [fold_left] in E.
+  - inversion E; subst. split; [exact Hok|]. split; [apply extends_refl|]. split; [reflexivity|].
+    exists []. rewrite app_nil_r. split; [reflexivity|]. split; constructor.
+  - inversion Hr as [|? ? Hi Hr']; subst. cbn [snd] in Hi. unfold fbstep at 2 in E. cbn [fst snd] in E.
+    destruct (pred k (val_of zeroT h i)) eqn:Ep.
+    + destruct (IH h (os ++ [i]) h' os' Hok Hr' E) as (A&B&C&news&E1&F1&F2).
+      split; [exact A|]. split; [exact B|]. split; [exact C|]. exists (i :: news).
+      split; [rewrite E1, <- app_assoc; reflexivity|]. pose proof B as (L&_).
+      split; [constructor; [lia|exact F1]|]. constructor; [left; auto|exact F2].
+    + rewrite euthanize_eq in E. set (c := {| ov := None; osrc := [i]; oown := None |}) in *.
+      destruct (euthanize_spec h i Hok Hi) as (A1&B1&T1). fold c in A1, B1, T1.
+      pose proof B1 as (L1&_).
+      assert (Hr1 : Forall (fun ki : nat * nat => snd ki < length (houts (push_o h c))) rest).
+      { eapply Forall_impl; [|exact Hr']. cbv beta. intros ki Hki. lia. }
+      destruct (IH (push_o h c) (os ++ [length (houts h)]) h' os' A1 Hr1 E) as (A&B&C&news&E1&F1&F2).
+      split; [exact A|]. split; [eapply extends_trans; eassumption|]. split; [rewrite C; reflexivity|].
+      exists (length (houts h) :: news). split; [rewrite E1, <- app_assoc; reflexivity|].
+      pose proof B as (L&_). rewrite len_o_push_o in L.
+      split; [constructor; [lia|exact F1]|]. constructor.
+      * right. cbn [fst snd]. split; [exact Ep|]. apply (is_tomb_ext h (push_o h c) h' _ i B T1).
+      * rewrite Forall_forall in Hr'. eapply Forall2_impl_in; [|exact F2]. cbv beta. intros x ki0 _ Hi0 [[P1 P2]|[P1 P2]].
+        -- left. split; [|exact P2]. rewrite <- (val_of_ext h (push_o h c) (snd ki0) B1 (Hr' _ Hi0)). exact P1.
+        -- right. split; [rewrite <- (val_of_ext h (push_o h c) (snd ki0) B1 (Hr' _ Hi0)); exact P1|].
+           apply (is_tomb_lower h (push_o h c) h' x (snd ki0) L1 P2).
+Qed.
+
+Lemma Forall2_map_r {A B C} (R : A -> C -> Prop) (g : B -> C) l l' :
+  Forall2 (fun a b => R a (g b)) l l' -> Forall2 R l (map g l').
+Proof. induction 1 as [|a b l l' Hab F IH]; cbn [map]; constructor; assumption. Qed.
+
+Lemma tagged_from_snd {A B} (f : A -> list B) l : forall k, map snd (tagged_from f k l) = flat_map f l.
+Proof.
+  induction l as [|x t IH]; intros k; [reflexivity|]. cbn [tagged_from flat_map].
+  rewrite map_app, map_map, IH. cbn [snd]. rewrite map_id. reflexivity.
+Qed.
+
+(* the tagged live values of the source rolls, as the value-level semantics sees them *)
+Lemma vals_tagged_live (hp : heap) rids : forall k,
+  map (fun ki => (fst ki, val_of zeroT hp (snd ki))) (tagged_from (roll_live hp) k rids) =
+  tagged_from (@live T) k (map (rollv_of hp) rids).
+Proof.
+  induction rids as [|r t IH]; intros k; [reflexivity|]. cbn [tagged_from map]. rewrite map_app, IH. f_equal.
+  rewrite map_map. cbn [fst snd]. unfold roll_live, rollv_of. rewrite <- vals_live_ids, map_map. reflexivity.
+Qed.
+
+Lemma filterby_vals (pred : nat -> T -> bool) (h h' : heap) news (kids : list (nat * nat)) : extends h h' ->
+  Forall2 (fun x ki => (pred (fst ki) (val_of zeroT h (snd ki)) = true /\ x = snd ki) \/
+                       (pred (fst ki) (val_of zeroT h (snd ki)) = false /\ is_tomb h h' x (snd ki))) news kids ->
+  (forall ki, In ki kids -> snd ki < length (houts h) /\ ov (get_o h (snd ki)) = Some (val_of zeroT h (snd ki))) ->
+  ovs h' news = map (fun kv => if pred (fst kv) (snd kv) then Some (snd kv) else None)
+                    (map (fun ki => (fst ki, val_of zeroT h (snd ki))) kids).
+Proof.
+  intros Hex F. induction F as [|x ki news kids Hxi F IH]; intros Hl; [reflexivity|].
+  unfold ovs in *. cbn [map]. rewrite IH by (intros ki0 Hi0; apply Hl; right; exact Hi0). f_equal.
+  destruct (Hl ki (or_introl eq_refl)) as [Hi Hv]. cbn [fst snd]. destruct Hxi as [[P ->]|[P (_&Ev&_)]]; rewrite P.
+  - destruct Hex as (_&_&H&_). destruct (H (snd ki) Hi) as (E&_). rewrite E. exact Hv.
+  - exact Ev.
+Qed.
+
+Lemma good_filterby pred l : Forall good l -> good (RFilterBy pred l).
+Proof.
+  intros Hg Hl p hp script asks hp' rid Hok H. cbn [legal] in Hl. apply legal_all in Hl.
+  cbn [roll_m] in H. rewrite go_mseq in H.
+  apply run_mbind_tail in H;
+    [|intros x hp1; match goal with |- pure_t (let '(_, _) := ?e in _) => destruct e end; exact I].
+  destruct H as (hp1&rids&E1&E2).
+  match type of E2 with (let '(_, _) := ?e in _) = _ => destruct e as [hp2 outs] eqn:EF end.
+  change (fold_left (fbstep pred) (tagged_from (roll_live hp1) 0 rids) (hp1, []) = (hp2, outs)) in EF.
+  apply Ret_inj in E2.
+  destruct (sources_post p l Hg Hl hp script asks hp1 rids Hok E1) as (A&B&C&D&V&J).
+  pose proof (flat_live_lt hp1 rids A C) as Hall.
+  assert (Hallk : Forall (fun ki : nat * nat => snd ki < length (houts hp1)) (tagged_from (roll_live hp1) 0 rids)).
+  { rewrite <- (tagged_from_snd (roll_live hp1) rids 0) in Hall. rewrite Forall_map in Hall. exact Hall. }
+  destruct (filterby_fold_spec pred _ hp1 [] hp2 outs A Hallk EF) as (A2&B2&C2&news&EN&F1&F2).
+  cbn [app] in EN. subst news.
+  assert (F3 : Forall2 (kept_or_tomb hp1 hp2) outs (flat_map (roll_live hp1) rids)).
+  { rewrite <- (tagged_from_snd (roll_live hp1) rids 0). apply Forall2_map_r.
+    eapply Forall2_impl_in; [|exact F2]. cbv beta. intros x ki _ _ [[_ ->]|[_ Ht]]; [left; reflexivity|right; exact Ht]. }
+  destruct (kot_closure hp1 hp2 _ _ F3) as [K1 K2].
+  destruct (select_final hp1 hp2 p outs rids hp' rid A C A2 B2 C2 F1 K1 K2 E2) as (A'&B'&C'&D'&F'&V'&J').
+  pose proof B as (_&Lr&_&_).
+  split; [exact A'|]. split; [eapply extends_trans; eassumption|]. split; [lia|].
+  split; [rewrite F'; reflexivity|]. split.
+  - cbn [roll_v]. eapply run_bind_pure; [exact V|]. rewrite V'.
+    rewrite (filterby_vals pred hp1 hp2 outs _ B2 F2).
+    + rewrite vals_tagged_live. reflexivity.
+    + intros ki Hki. rewrite Forall_forall in Hallk. split; [apply Hallk; exact Hki|].
+      apply (flat_live_all_live hp1 rids (snd ki)). rewrite <- (tagged_from_snd (roll_live hp1) rids 0).
+      apply in_map. exact Hki.
+  - split.
+    + unfold src_paths. rewrite F'. cbn [rsrc]. rewrite (map_rpath_ext hp1 hp' rids B' C). exact D.
+    + intros HQ. destruct (J HQ) as [HQ1 _]. apply J'. exact HQ1.
+Qed.
+
 (* ---- SelectionRoller ---- *)
 Definition tstep (acc : heap * list nat) (i : nat) : heap * list nat :=
   let '(h0, ts) := acc in let '(h1, t) := euthanize h0 i in (h1, ts ++ [t]).
@@ -1838,6 +1949,7 @@ Proof.
   - apply good_un.
   - apply good_select.
   - apply good_filter.
+  - apply good_filterby.
   - apply good_subst.
 Qed.
 
@@ -1980,6 +2092,10 @@ Corollary source_paths_filter f l :
   run (roll_m O zeroT addT p (RFilter f l) hp) script = (asks, Some (Ok (hp', rid))) ->
   ps = map (fun k => p ++ [k]) (seq 0 (length l)).
 Proof. intros H. exact (roll_m_source_paths _ _ _ _ _ _ _ Hok H). Qed.
+Corollary source_paths_filterby f l :
+  run (roll_m O zeroT addT p (RFilterBy f l) hp) script = (asks, Some (Ok (hp', rid))) ->
+  ps = map (fun k => p ++ [k]) (seq 0 (length l)).
+Proof. intros H. exact (roll_m_source_paths _ _ _ _ _ _ _ Hok H). Qed.
 Corollary source_paths_repeat n r :
   run (roll_m O zeroT addT p (RRepeat n r) hp) script = (asks, Some (Ok (hp', rid))) ->
   ps = repeat (p ++ [0]) n.
@@ -2021,6 +2137,25 @@ Proof.
   destruct (all_post r p hp script asks hp' rid Hok H) as (A&B&C&D&_). auto.
 Qed.
 
+(* RFilterBy with a predicate that ignores the source index builds the same record as RFilter: the same
+   choice tree up to pointwise equal continuations (RollerP.teq; Leibniz equality of the two M-computations,
+   which are functions of the heap returning trees of functions, would need functional extensionality) *)
+Lemma fbstep_const_fold (pred : T -> bool) (kids : list (nat * nat)) : forall acc : heap * list nat,
+  fold_left (fbstep (fun _ => pred)) kids acc = fold_left (fstep pred) (map snd kids) acc.
+Proof. induction kids as [|ki rest IH]; intros acc; [reflexivity|]. cbn [map fold_left]. rewrite <- IH. reflexivity. Qed.
+
+Lemma filterby_const_is_filter_m (pred : T -> bool) (l : list (@rtree T)) p hp :
+  RollerP.teq (roll_m O zeroT addT p (RFilterBy (fun _ => pred) l) hp) (roll_m O zeroT addT p (RFilter pred l) hp).
+Proof.
+  cbn [roll_m]. unfold mbind. apply RollerP.teq_bind. intros [hp1 rids]. cbn [fst snd].
+  match goal with |- RollerP.teq (let '(_, _) := ?e1 in _) (let '(_, _) := ?e2 in _) =>
+    replace e1 with e2; [apply RollerP.teq_refl|] end.
+  symmetry. etransitivity; [exact (fbstep_const_fold pred _ _)|]. rewrite tagged_from_snd. reflexivity.
+Qed.
+Corollary filterby_const_is_filter_m_run (pred : T -> bool) (l : list (@rtree T)) p hp script :
+  run (roll_m O zeroT addT p (RFilterBy (fun _ => pred) l) hp) script = run (roll_m O zeroT addT p (RFilter pred l) hp) script.
+Proof. apply RollerP.teq_run, filterby_const_is_filter_m. Qed.
+
 End P.
 
 Print Assumptions roll_m_complete.
@@ -2032,3 +2167,5 @@ Print Assumptions roll_m_complete_original_fails.
 Print Assumptions roll_m_source_paths.
 Print Assumptions roll_m_values.
 Print Assumptions roll_m_heap_ok.
+Print Assumptions filterby_const_is_filter_m.
+Print Assumptions filterby_const_is_filter_m_run.
